@@ -841,7 +841,8 @@ def enum_cli_scale(tier):
             for k in ks:
                 j += 1
                 if tier == 'quick':
-                    modes = [SCALE_MODES[j % 6], SCALE_MODES[6 + j % 4]]
+                    # all four boundary points where they are cheapest, one of them elsewhere
+                    modes = [SCALE_MODES[j % 6]] + (SCALE_MODES[6:] if k == 1 else [SCALE_MODES[6 + j % 4]])
                 else:
                     modes = SCALE_MODES
                 for mode in modes:
